@@ -2,6 +2,7 @@ import GeoVerif.Model.GridCodes
 import GeoVerif.Proofs.F64Round
 import GeoVerif.Proofs.Digits
 import GeoVerif.Proofs.GeohashBits
+import GeoVerif.Proofs.GeohashScale
 import GeoVerif.Props.C16
 /-!
 # C18 — property theorems (grid codes), integer level
@@ -457,6 +458,212 @@ example : (match GARS.scaleExact (.fin true 6327322913974955 (-46)) (.fin false 
     | _, _ => false) = true := by decide +kernel
 /-- a representable product: `lat = 45.5`, `lon = 0.25` -/
 example : (Dy.round53 (Dy.mul (prepLat (.fin false 91 (-1))).toDy (F64.ofInt GARS.m).toDy)).m = 1092 := by decide +kernel
+
+/-! ### `scale_contains` (Geohash): one rounded *division*, `floor`, and an exact addition
+
+`Dy.divTo` is proved to be the correctly rounded quotient (`Proofs/DivTo.lean`), so the same statement holds. -/
+section GeohashScale
+open F64
+
+/-- one Geohash coordinate: `x` finite with `|x| ≤ k` degrees (`k = 180` or `90`), `eps = k / 2^45` (exact).
+The exact cell `⌊x·2^45/k⌋` and the coded one `⌊rnd(x / eps)⌋` are related by `CellRelQ`, and the coded
+`floor(x/eps) + 2^45` (a binary64 addition) is exact. -/
+theorem geohash_coord (s : Bool) (m : ℕ) (e : ℤ) (k : ℕ) (hk0 : k ≠ 0) (hk : (k:ℤ) ≤ 2 ^ 53)
+    (hx : |(F64.fin s m e).val| ≤ k) :
+    let x := F64.fin s m e
+    let eps := (F64.fin false k 0) / shift45
+    CellRelQ (x.val * (2:ℚ) ^ (45:ℕ) / k) (x / eps).val (flExact x.toDy k) (divFloorCoded x eps) ∧
+    Dy.floor (F64.floor (x / eps) + shift45).toDy = divFloorCoded x eps + 2 ^ 45 ∧
+    -(2:ℤ) ^ 45 ≤ flExact x.toDy k ∧ flExact x.toDy k ≤ 2 ^ 45 ∧ (x.val < k → flExact x.toDy k < 2 ^ 45) := by
+  intro x eps
+  obtain ⟨se, me, ee, heps, hme, hev⟩ := eps_spec k hk0 hk
+  have hkq : (0:ℚ) < k := by exact_mod_cast Nat.pos_of_ne_zero hk0
+  have hq : x.val / eps.val = x.val * (2:ℚ) ^ (45:ℕ) / k := by
+    show x.val / ((F64.fin false k 0) / shift45).val = _
+    rw [hev]; field_simp
+  obtain ⟨n1, n2⟩ := flExact_spec x.toDy k (by exact_mod_cast Nat.pos_of_ne_zero hk0)
+  have hxv : x.toDy.val = x.val := rfl
+  rw [hxv] at n1 n2
+  push_cast at n1 n2
+  set n := flExact x.toDy k with hn
+  have hxb := abs_le.mp hx
+  have e45 : (0:ℚ) < (2:ℚ) ^ (45:ℕ) := by positivity
+  have zlo : -(2:ℚ) ^ (45:ℕ) ≤ x.val * (2:ℚ) ^ (45:ℕ) / k := by
+    rw [le_div_iff₀ hkq]; nlinarith
+  have zhi : x.val * (2:ℚ) ^ (45:ℕ) / k ≤ (2:ℚ) ^ (45:ℕ) := by
+    rw [div_le_iff₀ hkq]; nlinarith
+  have e52 : (2:ℚ) ^ 52 = 128 * (2:ℚ) ^ (45:ℕ) := by norm_num
+  have hz52 : |x.val / eps.val| ≤ 2 ^ 52 := by
+    rw [hq, e52, abs_le]; constructor <;> linarith
+  have hdc := divFloor_contains s se m me e ee hme n
+  rw [← heps] at hdc
+  simp only [] at hdc
+  obtain ⟨hfin, hcr⟩ := hdc hz52 (by rw [hq]; exact n1) (by rw [hq]; exact n2)
+  rw [hq] at hcr
+  have nlo : -(2:ℤ) ^ 45 ≤ n := by
+    have : ((-(2:ℤ) ^ 45 - 1 : ℤ) : ℚ) < (n:ℚ) := by push_cast; linarith
+    have : -(2:ℤ) ^ 45 - 1 < n := by exact_mod_cast this
+    omega
+  have nhi : n ≤ (2:ℤ) ^ 45 := by
+    have : (n:ℚ) ≤ ((2 ^ 45 : ℤ) : ℚ) := by push_cast; linarith
+    exact_mod_cast this
+  refine ⟨⟨⟨n1, n2⟩, hcr⟩, ?_, nlo, nhi, ?_⟩
+  · -- exact addition of the shift
+    obtain ⟨sq, mq, eq, hrep⟩ := exists_fin_of_isFinite _ hfin
+    have hc : divFloorCoded x eps = Dy.floor (x / eps).toDy := by unfold divFloorCoded; rw [floor_toDy_floor]
+    obtain ⟨f1, f2⟩ := Dy.floor_spec (x / eps).toDy
+    have hcb : divFloorCoded x eps = n ∨ divFloorCoded x eps = n + 1 := by
+      rcases hcr with h | ⟨h, _⟩
+      · exact Or.inl h
+      · exact Or.inr h
+    rw [← hc] at f1 f2
+    have hqv : (x / eps).toDy.val = (x / eps).val := rfl
+    rw [hqv] at f1 f2
+    have hb52 : |(x / eps).val| ≤ 2 ^ 52 := by
+      have nloq : (-(2:ℚ) ^ (45:ℕ)) ≤ (n:ℚ) := by exact_mod_cast nlo
+      have nhiq : (n:ℚ) ≤ (2:ℚ) ^ (45:ℕ) := by exact_mod_cast nhi
+      rw [e52, abs_le]
+      rcases hcb with h | h <;> rw [h] at f1 f2 <;> push_cast at f1 f2 <;> constructor <;> linarith
+    rw [hc, hrep]
+    rw [hrep] at hb52
+    exact floor_add_shift sq mq eq hb52
+  · intro hlt
+    have : x.val * (2:ℚ) ^ (45:ℕ) / k < (2:ℚ) ^ (45:ℕ) := by
+      rw [div_lt_iff₀ hkq]; nlinarith
+    have : (n:ℚ) < ((2 ^ 45 : ℤ) : ℚ) := by push_cast; linarith
+    exact_mod_cast this
+
+
+theorem two_eq : (2 : F64) = .fin false 2 0 := rfl
+
+/-- the pole: `lat = 90` is first moved to `90 − lateps/2` (exact), whose cell is the last one, `2^46 − 1` -/
+theorem geohash_pole (s : Bool) (m : ℕ) (e : ℤ) (hv : (F64.fin s m e).val = 90) :
+    let eps := (F64.fin false 90 0) / shift45
+    Dy.floor (F64.floor ((F64.fin s m e - eps / 2) / eps) + shift45).toDy = 2 ^ 46 - 1 := by
+  intro eps
+  obtain ⟨se, me, ee, heps, hme, hev⟩ := eps_spec 90 (by norm_num) (by norm_num)
+  have hev' : eps.val = 90 / (2:ℚ) ^ (45:ℕ) := by exact_mod_cast hev
+  have big : ∀ r : ℚ, |r| ≤ 2 ^ 52 → |r| < (2:ℚ) ^ (1024:ℤ) := by
+    intro r hr
+    have h53 : (2:ℚ) ^ (52:ℕ) < (2:ℚ) ^ (1024:ℤ) := by
+      rw [← zpow_natCast]; exact Dy.two_zpow_lt_iff.mpr (by norm_num)
+    exact lt_of_le_of_lt hr h53
+  -- h = eps / 2
+  obtain ⟨r1, hr1, hf1⟩ := div_fin se false me 2 ee 0 (by norm_num)
+  rw [← heps, ← two_eq] at hr1 hf1
+  have h2v : (2 : F64).val = 2 := by rw [two_eq, val_fin]; simp
+  rw [hev', h2v] at hr1
+  have hr1e := hr1.eq_of_fits 45 (-45) (by norm_num) (by norm_num) (by
+    rw [zpow_neg]; norm_num)
+  have hr1b : |r1| ≤ 2 ^ 52 := by rw [hr1e]; norm_num [abs_le]
+  obtain ⟨hfin1, hval1⟩ := hf1 (big r1 hr1b)
+  obtain ⟨sh, mh, eh, hrep1⟩ := exists_fin_of_isFinite _ hfin1
+  -- x' = lat − h
+  obtain ⟨r2, hr2, hf2⟩ := sub_fin_isRN s sh m mh e eh
+  rw [← hrep1] at hr2 hf2
+  rw [hv, hval1, hr1e] at hr2
+  have hr2e := hr2.eq_of_fits (45 * (2 ^ 46 - 1)) (-45) (by norm_num) (by norm_num) (by
+    rw [zpow_neg]; norm_num)
+  have hr2b : |r2| ≤ 2 ^ 52 := by rw [hr2e]; norm_num [abs_le]
+  obtain ⟨hfin2, hval2⟩ := hf2 (big r2 hr2b)
+  obtain ⟨sx, mx, ex, hrep2⟩ := exists_fin_of_isFinite _ hfin2
+  -- q = x' / eps
+  obtain ⟨r3, hr3, hf3⟩ := div_fin sx se mx me ex ee hme
+  rw [← hrep2, ← heps] at hr3 hf3
+  rw [hval2, hr2e, hev'] at hr3
+  have hr3e := hr3.eq_of_fits (2 ^ 46 - 1) (-1) (by norm_num) (by norm_num) (by
+    rw [zpow_neg]; norm_num)
+  have hr3b : |r3| ≤ 2 ^ 52 := by rw [hr3e]; norm_num [abs_le]
+  obtain ⟨hfin3, hval3⟩ := hf3 (big r3 hr3b)
+  obtain ⟨sq, mq, eq, hrep3⟩ := exists_fin_of_isFinite _ hfin3
+  rw [hrep3]
+  rw [hrep3] at hval3
+  rw [floor_add_shift sq mq eq (by rw [hval3]; exact hr3b)]
+  have : Dy.floor (F64.fin sq mq eq).toDy = 2 ^ 45 - 1 := by
+    apply Dy.floor_unique
+    · show ((2 ^ 45 - 1 : ℤ) : ℚ) ≤ (F64.fin sq mq eq).val
+      rw [hval3, hr3e]; norm_num
+    · show (F64.fin sq mq eq).val < ((2 ^ 45 - 1 : ℤ) : ℚ) + 1
+      rw [hval3, hr3e]; norm_num
+  rw [this]; norm_num
+
+/-- latitude argument of the Geohash scale division: the pole is moved inside by half a cell -/
+def ghLat (lat : F64) : F64 := if F64.eq lat MathF.qd then lat - (MathF.qd / shift45) / 2 else lat
+
+theorem geohash_scale_eq (lat lon : F64) :
+    Geohash.scale lat lon =
+      if F64.gt (F64.abs lat) MathF.qd then .error "lat" else
+      if lat.isNaN || lon.isNaN then .ok none else
+      .ok (some ((Dy.floor (F64.floor (prepLon lon / (MathF.hd / shift45)) + shift45).toDy).toNat,
+                 (Dy.floor (F64.floor (ghLat lat / (MathF.qd / shift45)) + shift45).toDy).toNat)) := rfl
+
+theorem geohash_scaleExact_eq (lat lon : F64) :
+    Geohash.scaleExact lat lon =
+      if !(lat.isFinite && lon.isFinite) then none else
+      some ((flExact (prepLon lon).toDy 180 + 2 ^ 45).toNat,
+            (if F64.eq lat MathF.qd then 2 ^ 46 - 1 else flExact lat.toDy 90 + 2 ^ 45 : ℤ).toNat) := rfl
+
+/-- **`scale_contains`, Geohash** (every accepted finite position).  Both `scaleExact` and `scale` succeed with
+46-bit coordinates `n + 2^45`, `c + 2^45`; in longitude the exact index `nx = ⌊lon'·2^45/180⌋` and the coded one
+`cx = ⌊rnd(lon'/loneps)⌋` are related by `CellRelQ` (`cx = nx`, or `cx = nx + 1` when the rounded quotient is exactly
+that integer: class F2); in latitude the same away from the pole, and at `lat = 90` both give the last row `2^46 − 1`.
+The additions of `2^45` and the constants `loneps = 180/2^45`, `lateps = 90/2^45` are exact (proved, not assumed). -/
+theorem geohash_scale_contains (lat lon : F64) (h1 : F64.gt (F64.abs lat) MathF.qd = false)
+    (h2 : (lat.isNaN || lon.isNaN) = false) (hf : lon.isFinite = true) :
+    ∃ nx ny cx cy : ℤ,
+      Geohash.scaleExact lat lon = some ((nx + 2 ^ 45).toNat, (ny + 2 ^ 45).toNat) ∧
+      Geohash.scale lat lon = .ok (some ((cx + 2 ^ 45).toNat, (cy + 2 ^ 45).toNat)) ∧
+      (-(2:ℤ) ^ 45 ≤ nx ∧ nx < 2 ^ 45) ∧ (-(2:ℤ) ^ 45 ≤ ny ∧ ny < 2 ^ 45) ∧
+      CellRelQ ((prepLon lon).val * (2:ℚ) ^ (45:ℕ) / 180) (prepLon lon / (MathF.hd / shift45)).val nx cx ∧
+      (lat.val = 90 → ny = 2 ^ 45 - 1 ∧ cy = ny) ∧
+      (lat.val ≠ 90 → CellRelQ (lat.val * (2:ℚ) ^ (45:ℕ) / 90) (lat / (MathF.qd / shift45)).val ny cy) := by
+  have hnan : lat.isNaN = false := by
+    cases h : lat.isNaN <;> simp_all
+  obtain ⟨sl, ml, el, hl, hlb⟩ := lat_accepted lat h1 hnan
+  have hlatf : lat.isFinite = true := by rw [hl]; rfl
+  have hfin : (!(lat.isFinite && lon.isFinite)) = false := by rw [hlatf, hf]; rfl
+  -- longitude
+  rcases prepLon_spec lon with ⟨hf', _⟩ | ⟨_, s, m, e, hp, hlo, hhi, _⟩
+  · rw [hf] at hf'; exact absurd hf' (by decide)
+  have hxb : |(F64.fin s m e).val| ≤ ((180:ℕ):ℚ) := by
+    rw [← hp, abs_le]; push_cast; constructor <;> linarith
+  obtain ⟨a1, a2, a3, a4, a5⟩ := geohash_coord s m e 180 (by norm_num) (by norm_num) hxb
+  rw [← hp] at a1 a2 a3 a4 a5
+  have hhd : MathF.hd = .fin false 180 0 := rfl
+  have hqd : MathF.qd = .fin false 90 0 := rfl
+  have a5' := a5 (by push_cast; exact hhi)
+  have h90 : (MathF.qd).val = 90 := by rw [hqd, F64.val_fin]; simp
+  rw [geohash_scaleExact_eq, geohash_scale_eq, h1, h2, hfin]
+  simp only [Bool.false_eq_true, if_false]
+  by_cases hE : F64.eq lat MathF.qd = true
+  · -- the pole
+    have hv : lat.val = 90 := by rw [(F64.eq_fin_iff _ _ hlatf rfl).mp hE, h90]
+    have hpole := geohash_pole sl ml el (by rw [← hl]; exact hv)
+    simp only [] at hpole
+    rw [← hl, ← hqd] at hpole
+    refine ⟨flExact (prepLon lon).toDy 180, 2 ^ 45 - 1, divFloorCoded (prepLon lon) (MathF.hd / shift45), 2 ^ 45 - 1,
+      ?_, ?_, ⟨a3, a5'⟩, ⟨by norm_num, by norm_num⟩, ?_, fun _ => ⟨rfl, rfl⟩, fun hne => absurd hv hne⟩
+    · rw [if_pos hE]; norm_num
+    · unfold ghLat; rw [if_pos hE, hpole, hhd, a2]; norm_num
+    · push_cast at a1; rw [hhd]; exact a1
+  · have hne : lat.val ≠ 90 := by
+      intro hc; apply hE
+      exact (F64.eq_fin_iff _ _ hlatf rfl).mpr (by rw [hc, h90])
+    have hyb : |(F64.fin sl ml el).val| ≤ ((90:ℕ):ℚ) := by rw [← hl]; push_cast; exact hlb
+    obtain ⟨b1, b2, b3, b4, b5⟩ := geohash_coord sl ml el 90 (by norm_num) (by norm_num) hyb
+    rw [← hl] at b1 b2 b3 b4 b5
+    have b5' := b5 (by push_cast; exact lt_of_le_of_ne (abs_le.mp hlb).2 hne)
+    refine ⟨flExact (prepLon lon).toDy 180, flExact lat.toDy 90, divFloorCoded (prepLon lon) (MathF.hd / shift45),
+      divFloorCoded lat (MathF.qd / shift45), ?_, ?_, ⟨a3, a5'⟩, ⟨b3, b5'⟩, ?_, fun hc => absurd hc hne, fun _ => ?_⟩
+    · rw [if_neg hE]
+    · unfold ghLat; rw [if_neg hE, hhd, hqd, a2, b2]
+    · push_cast at a1; rw [hhd]; exact a1
+    · push_cast at b1; rw [hqd]; exact b1
+
+example : F64.gt (F64.abs (.fin false 91 (-1))) MathF.qd = false ∧ (F64.fin false 1 (-2)).isFinite = true := by
+  decide +kernel
+
+end GeohashScale
 
 /-! ### integer codec round trips (all inputs)
 
